@@ -307,6 +307,38 @@ structure HEnv (σ ρ η κ : Type) where
   onError : σ → κ → σ × κ × Option Panic
   onPanic : σ → κ → σ × κ × Option Panic
 
+/-- calls received by an `http.ResponseWriter` below pkg/render -/
+inductive HEv
+  | write (b : Bytes)
+  deriving DecidableEq, Repr
+
+/-- an `http.ResponseWriter` as pkg/render sees it: its header map (single-valued) and the `Write` calls it received -/
+structure HW where
+  header : List (Bytes × Bytes) := []
+  log : List HEv := []
+  deriving DecidableEq, Repr, Inhabited
+
+/-- `header[key]`: the values stored under the key (none or one) -/
+def hdrGet (h : List (Bytes × Bytes)) (k : Bytes) : List Bytes :=
+  match h.find? (fun x => x.1 == k) with
+  | some x => [x.2]
+  | none => []
+
+/-- `w.Header().Set(key, value)` -/
+def HW.set (w : HW) (k v : Bytes) : HW := { w with header := (k, v) :: w.header.filter (fun x => x.1 != k) }
+
+/-- `w.Write(data)` -/
+def HW.write (w : HW) (b : Bytes) : HW := { w with log := w.log ++ [.write b] }
+
+/-- what `render.Auto` calls: the Accept header of the request, `httpreq.ParseAccept`, and the three renderers it hands
+    the value to (each returns the writer afterwards and whether it returned an error) -/
+structure RAEnv (ω : Type) where
+  acceptHeader : Bytes → Bytes
+  parseAccept : Bytes → List Bytes
+  json : ω → ω × Bool
+  xml : ω → ω × Bool
+  text : ω → ω × Bool
+
 /-- the context pool and the dispatcher, as seen by `ServeHTTP` / `HandleContext`: `κ` is the context record.
     When `handle` ends with a panic the entry point does not reach its `Put` (the panic propagates). -/
 structure PEnv (σ κ : Type) where
